@@ -42,6 +42,7 @@ type obs struct {
 	asked   int
 	probe   string
 	signed  bool // the honest client put its signature under the proposed state
+	waited  bool // the handler took as long as the state watcher's timeout (10 s)
 }
 
 type event struct {
@@ -118,7 +119,7 @@ func (f *fctx) obsTerm(o obs, st *channel.State) string {
 		sig = "(Some " + f.tokPlain(o.accSig, st) + ")"
 	}
 	return hx.App("mkObs", hx.N(uint64(o.dec)), hx.ListOf(o.sent, func(i int) string { return hx.N(uint64(i)) }),
-		hx.Bool(o.free), f.snapTerm(o.after), sig)
+		hx.Bool(o.free), f.snapTerm(o.after), sig, hx.Bool(o.waited))
 }
 
 // ---------- property oracles (from the property texts, independent of model and code) ----------
@@ -430,6 +431,7 @@ func (sh *shard) execUpd(tc tcase, stranger bool, doProbe bool) {
 	t0 := time.Now()
 	o.outcome, pv = syncCall(func() { f.h.C.VerifHandleChannelUpdate(f.h, env.Sender, msg) }, wd)
 	took := time.Since(t0)
+	o.waited = took > 5*time.Second
 	if pv != nil {
 		o.pv = fmt.Sprint(pv)
 	}
@@ -595,6 +597,72 @@ func (sh *shard) execValidate(tc tcase, msg client.ChannelUpdateProposal, before
 	sh.count(tc.class+"/validate", []string{"ok", "error", "panic"}[code], tc.class+"/validate/"+fmt.Sprint(code))
 	sh.cases = append(sh.cases, hx.App("HVal", f.ctxTerm(before, nil, nil, false), f.reqTerm(msg), hx.N(uint64(code))))
 	sh.index = append(sh.index, tc.class+"/validate")
+}
+
+// ---------- the UpdateResponder used more than once ----------
+
+// execResp: the responder of a request is called like the virtual-channel handlers and the settlement
+// watcher call it (rejectProposal / acceptProposal / resp.Accept): every call must return.
+func (sh *shard) execResp() {
+	f := sh.f
+	f.actingContext(f.r.Intn(2))
+	before := f.snapshot()
+	cur := before.Current.State
+	u := f.signedUpd(f.pay(cur, f.peer(), false), f.peer())
+	class := "r-valid"
+	if f.r.Intn(3) == 0 {
+		u = f.signedUpd(f.pay(cur, f.peer(), false), f.peer())
+		u.State.Version += 3 // Accept fails in machine.Update
+		u.Sig = f.sign(f.p.Acc, u.State)
+		class = "r-accept-fails"
+	}
+	env, ok := roundTrip(&wire.Envelope{Sender: f.p.Addr, Recipient: f.h.Addr, Msg: &u})
+	if !ok {
+		return
+	}
+	msg := env.Msg.(*client.ChannelUpdateMsg)
+	patterns := [][]bool{{false, false}, {true, false}, {false, true}, {true, true}, {true}, {false}, {false, false, true}}
+	calls := patterns[f.r.Intn(len(patterns))]
+	resp := f.ch.VerifNewUpdateResponder(msg)
+	f.ob.take()
+	returned := 0
+	for _, acc := range calls {
+		out, _ := syncCall(func() {
+			ctx, cancel := context.WithTimeout(context.Background(), 2*time.Second)
+			defer cancel()
+			if acc {
+				_ = resp.Accept(ctx)
+			} else {
+				_ = resp.Reject(ctx, "no")
+			}
+		}, 3*time.Second)
+		if out != "RET" {
+			break
+		}
+		returned++
+	}
+	var sent []int
+	for _, e := range f.ob.take() {
+		switch e.Msg.(type) {
+		case *client.ChannelUpdateAccMsg:
+			sent = append(sent, 0)
+		case *client.ChannelUpdateRejMsg:
+			sent = append(sent, 1)
+		}
+	}
+	class += fmt.Sprintf("/%d-calls", len(calls))
+	if returned < len(calls) {
+		f.burnt = true
+		if sh.prop == "C12" {
+			sh.fail("client.UpdateResponder", "responder-called-twice", fmt.Sprintf("call %d on the responder of one request (calls %v, true = Accept) did not return", returned+1, calls),
+				map[string]interface{}{"class": class, "message": cv.Msg(msg), "calls": calls})
+		}
+	}
+	sh.count(class, fmt.Sprintf("returned-%d", returned), fmt.Sprintf("%s/%v/%d/%v", class, calls, returned, sent))
+	sh.cases = append(sh.cases, hx.App("HResp", f.ctxTerm(before, nil, nil, false), f.updTerm(msg), hx.ListOf(calls, hx.Bool), hx.Nat(returned),
+		hx.ListOf(sent, func(i int) string { return hx.N(uint64(i)) })))
+	sh.index = append(sh.index, class)
+	f.burnt = true // the machine may be left in Signing by a half-done Accept: start from a fresh context
 }
 
 // ---------- one sync message ----------
@@ -786,7 +854,11 @@ func runShard(prop string, seed int64, idx int, n int, slow int, realOpen bool) 
 			k, vp := f.vsettleContext()
 			sh.execUpd(f.vsettleCase(f.snapshot().Current.State, k, vp, false), false, doProbe)
 		default:
-			sh.execSync(f.syncCase(s))
+			if r.Intn(6) == 0 {
+				sh.execResp()
+			} else {
+				sh.execSync(f.syncCase(s))
+			}
 		}
 	}
 	// the slow cases: proposals that pass validation and wait for their twin
